@@ -31,3 +31,22 @@ Proof. exact copier_shift. Qed.
 Theorem C12_symfile : forall r name v,
   In (name, v) (get_all_labels r) -> In ((v / 65536) mod 256, v mod 65536, name) (symbol_lines r).
 Proof. exact symbol_line_fields. Qed.
+
+(** The run-time oracle of this property (Oracle/E2Eo.v, [c12_ok]: the output file of every front
+    end, decoded by the independent patcher / image reader, holds exactly the in-memory blocks —
+    shifted by 0x200 with the copier header —, and the symbol file lists the observed label
+    definitions) holds of the model's own results for every source, and cannot raise a false alarm
+    on observations that agree with the model. *)
+From A816 Require Import Oracle.E2Eo Proofs.FrontOracle.
+Theorem C12_oracle_sound : forall t c,
+  corr t c = true -> cli_consistent t c -> writer_ok t c -> labeldefs_model t c -> c12_ok c = true.
+Proof. exact c12_no_false_alarm. Qed.
+Theorem C12_file_matches : forall f o bs,
+  output_file f o = Ok bs -> file_matches (fc_format f) (fc_copier f) (o_blocks o, o_labels o) bs = true.
+Proof. exact output_file_matches. Qed.
+Theorem C12_model_satisfies_oracles : forall t fs cfg name src fmt copier o fin bs,
+  assemble_source t fs cfg name src = AOk o fin ->
+  output_file {| fc_format := fmt; fc_copier := copier; fc_config := cfg |} o = Ok bs ->
+  let c := model_case t fs cfg name src fmt copier in
+  c14_ok false c = true /\ c12_ok c = true.
+Proof. exact model_case_oracles. Qed.
